@@ -79,6 +79,10 @@ fn delete_empty_groups(module: &mut Module) {
     let mut to_delete = vec![false; module.group.len()];
     // for each group that is queued for deletion, remove all references to it
     while let Some(del_idx) = delete_queue.pop() {
+        if to_delete[del_idx] {
+            // a group can be queued more than once; it is only handled the first time
+            continue;
+        }
         let name = module.group[del_idx].name.clone();
         to_delete[del_idx] = true;
 
